@@ -173,7 +173,7 @@ def environments():
     return envs, note
 
 
-def transform_once(exe, be, xml, cwd, tmpdir, prefix, extra_env, timeout=90):
+def transform_once(exe, be, xml, cwd, tmpdir, prefix, extra_env, timeout=90, infile=None):
     env = {'PATH': os.environ.get('PATH', '/usr/bin:/bin'), 'TMPDIR': tmpdir, 'TMP': tmpdir, 'HOME': os.environ.get('HOME', '/root')}
     env.update(extra_env)
     # the text goes to a file: with stdout as destination the library's log lines ("[Info] HTTP server listening on
@@ -184,7 +184,9 @@ def transform_once(exe, be, xml, cwd, tmpdir, prefix, extra_env, timeout=90):
     except OSError:
         pass
     try:
-        p = subprocess.run(prefix + [exe, '-t' + be, '-o', out], input=xml.encode('utf-8'), stdout=subprocess.PIPE, stderr=subprocess.PIPE,
+        p = subprocess.run(prefix + [exe, '-t' + be, '-o', out] + (['-i', infile] if infile else []),
+                           input=None if infile else xml.encode('utf-8'), stdin=subprocess.DEVNULL if infile else None,
+                           stdout=subprocess.PIPE, stderr=subprocess.PIPE,
                            cwd=cwd, env=env, timeout=timeout)
         try:
             with open(out, 'rb') as f:
@@ -350,12 +352,29 @@ def run(c):
                 cachefiles += 1 if ncache else 0
                 evaluations += 2
         c.notes['runs_with_cache_file_left_behind'] = cachefiles
+        # 1b. the same through a file URL (-i doc.scxml; Interpreter::fromURL, about a second per run): first documents only
+        nfile = 10 if quick else 60
+        fjobs = [(i, be, en, prefix, extra, os.path.join(work, 'd%d' % i)) for i in range(min(nfile, len(docs))) if i not in slow
+                 for be in BACKENDS if be not in docs[i]['skip'] for (en, prefix, extra) in (envs[0], envs[3])]
+
+        def file_one(j):
+            i, be, en, prefix, extra, cwd = j
+            t = os.path.join(cwd, 'ftmp-%s-%s' % (be, en))
+            os.makedirs(t)
+            return j, [transform_once(texe, be, docs[i]['xml'], cwd, t, prefix, extra, infile='doc.scxml') for _ in (0, 1)]
+        with concurrent.futures.ThreadPoolExecutor(max_workers=NCPU) as ex:
+            for j, (cold, warm) in ex.map(file_one, fjobs):
+                results.setdefault((j[0], j[1] + '@file'), []).append((j[2], 'cold', cold, j[:5] + (j[5], os.path.join(j[5], 'ftmp'))))
+                results[(j[0], j[1] + '@file')].append((j[2], 'warm', warm, j[:5] + (j[5], os.path.join(j[5], 'ftmp'))))
+                evaluations += 2
+        c.notes['runs_through_file_url'] = 2 * len(fjobs)
         found = {}
-        for (i, be), rs in sorted(results.items()):
+        for (i, bek), rs in sorted(results.items()):
+            be = bek.split('@')[0]
             d = docs[i]
             outs = [r[2] for r in rs]
             st = outs[0][0]
-            hist['exit_status'][be + ':' + str(st)] = hist['exit_status'].get(be + ':' + str(st), 0) + 1
+            hist['exit_status'][bek + ':' + str(st)] = hist['exit_status'].get(bek + ':' + str(st), 0) + 1
             if any(o[0] == 'TIMEOUT' for o in outs):
                 continue
             cls = classify(be, outs)
@@ -364,9 +383,9 @@ def run(c):
             if cls is None:
                 continue
             if not d['has_ids']:
-                hist['varying_without_ids_not_judged'][be + ':' + cls] = hist['varying_without_ids_not_judged'].get(be + ':' + cls, 0) + 1
+                hist['varying_without_ids_not_judged'][bek + ':' + cls] = hist['varying_without_ids_not_judged'].get(bek + ':' + cls, 0) + 1
                 continue
-            hist['varying'][be + ':' + cls] = hist['varying'].get(be + ':' + cls, 0) + 1
+            hist['varying'][bek + ':' + cls] = hist['varying'].get(bek + ':' + cls, 0) + 1
             key = (be, cls)
             if key in found and len(found[key][0]['xml']) <= len(d['xml']):
                 continue
@@ -381,7 +400,7 @@ def run(c):
             cwd = os.path.join('/tmp/c20-replay', 'd')
             payload = {'kind': 'oracle', 'oracle': 'byte equality of two transformations of the same document at the same URL',
                        'backend': be, 'class': cls, 'predicted_by_model_variant': predicted,
-                       'document': d['xml'] if len(d['xml']) < 6000 else d['xml'][:3000] + ' ...[%d bytes]... ' % len(d['xml']) + d['xml'][-1000:],
+                       'document': d['xml'],
                        'document_sha1': hashlib.sha1(d['xml'].encode('utf-8')).hexdigest(), 'document_class': d['cls'],
                        'run1': {'environment': a[0], 'cache': a[1], 'exit': a[2][0], 'md5': hashlib.md5(a[2][1]).hexdigest(), 'bytes': len(a[2][1])},
                        'run2': {'environment': b[0], 'cache': b[1], 'exit': b[2][0], 'md5': hashlib.md5(b[2][1]).hexdigest(), 'bytes': len(b[2][1])},
@@ -458,6 +477,37 @@ def run(c):
             else:
                 log('broken obligation %s (failing input reported above)' % b['name'])
     return c.finish()
+
+
+def replay(path):
+    """vcheck C20 --replay <file>: run the two recorded runs again and compare"""
+    r = json.load(open(path))
+    print(json.dumps({k: v for k, v in r.items() if k not in ('document', 'document_A', 'document_B')}, indent=1))
+    if r.get('kind') != 'oracle' or 'backend' not in r:
+        return 0
+    impl = ensure_impl('hooks')
+    texe = os.path.join(impl, 'bin', 'uscxml-transform')
+    envs, _ = environments()
+    byname = {e[0]: e for e in envs}
+    work = tempfile.mkdtemp(prefix='c20-replay-')
+    try:
+        outs = []
+        for k, run in enumerate((r['run1'], r['run2'])):
+            en, prefix, extra = byname.get(run['environment'], envs[0])
+            t = os.path.join(work, 'tmp%d' % k)
+            os.makedirs(t)
+            res = None
+            for _ in range(2 if run.get('cache') == 'warm' else 1):
+                res = transform_once(texe, r['backend'], r['document'], work, t, prefix, extra)
+            outs.append(res)
+            print('run%d environment=%s cache=%s exit=%s md5=%s bytes=%d' % (k + 1, en, run.get('cache'), res[0], hashlib.md5(res[1]).hexdigest(), len(res[1])))
+        if outs[0] != outs[1]:
+            print('DIFFERENT:', json.dumps(first_diff_region(outs[0][1], outs[1][1])))
+            return 1
+        print('identical this time (the difference depends on the address-space layout; repeat, or see the class)')
+        return 0
+    finally:
+        shutil.rmtree(work, ignore_errors=True)
 
 
 # ------------------------------------------------------------------ in-process: observed addresses -> model
